@@ -57,6 +57,7 @@ unsigned char in_read_fail;         /* 1: read error in bounce/N, 2: in mess/N (
 
 /* ---- observations */
 static int qq_open_called, qq_opened, qq_failed, qq_closed, qq_close_ok;
+static struct qmail *the_qq;
 static int n_from, n_to, n_unlink, unlink_ok;
 static char env_from[8], env_to[SL + DL + 2];
 static unsigned char pend[BL + ML];      /* bytes read from a file and not yet handed to qmail_put */
@@ -135,7 +136,8 @@ void nomem(void) { CHECK(0, "no allocation failure inside the bound (arena)"); A
 int qmail_open(struct qmail *qq)
 {
   CHECK(!qq_open_called, "C14: at most one notice is queued per call");
-  qq_open_called = 1;
+  qq_open_called = 1; the_qq = qq;
+  qq->flagerr = 0;                 /* as the real qmail_open() does; callers may look at it */
   CHECK(!str_is((char *) in_sender, "#@[]"), "C14: a failing double bounce is discarded, nothing is queued");
   if (in_openqq_fail) return -1;
   qq_opened = 1;
@@ -143,7 +145,7 @@ int qmail_open(struct qmail *qq)
 }
 
 unsigned long qmail_qp(struct qmail *qq) { return 4321; }
-void qmail_fail(struct qmail *qq) { CHECK(qq_opened && !qq_closed, "qmail_fail on the open connection"); qq_failed = 1; }
+void qmail_fail(struct qmail *qq) { CHECK(qq_opened && !qq_closed, "qmail_fail on the open connection"); qq_failed = 1; qq->flagerr = 1; }
 
 void qmail_put(struct qmail *qq, char *s, unsigned int len)
 {
@@ -252,7 +254,17 @@ int ideal_getc(substdio *s)
   pend[npend++] = c;
   return c;
 }
-int ideal_putc(substdio *s, unsigned char c) { CHECK(0, "no substdio output in injectbounce"); return -1; }
+/* a copy routine may also write the file's bytes straight into the message stream of the
+ * qmail-queue connection (substdio_copy onto qq->ss) instead of going through qmail_put():
+ * same obligation, one byte at a time */
+int ideal_putc(substdio *s, unsigned char c)
+{
+  CHECK(the_qq && s == &the_qq->ss, "injectbounce writes only to the qmail-queue connection");
+  CHECK(qq_opened && !qq_closed, "message bytes go to the open connection");
+  CHECK(npend == 1 && pend[0] == c, "C14: the bytes read from the file are handed to qmail-queue unchanged and in order");
+  if (npend) { ncopied += npend; npend = 0; }
+  return 0;
+}
 int ideal_flush(substdio *s) { return 0; }
 
 /* ---- reference classification of the sender */
